@@ -1,0 +1,7 @@
+//go:build !verif
+
+package inprocgrpc
+
+import "context"
+
+func verifPoint(context.Context, string, string) {}
